@@ -111,11 +111,37 @@ def data_symbols(data):
     return set()
 
 
-def diagram_symbols(d):
-    out = set()
+def leaf_boxes(d):
+    """The boxes of `d`, bubbles opened (recursively): the boxes that carry parameters."""
+    out = []
     for b in d.boxes:
+        if hasattr(b, "inside"):
+            out.extend(leaf_boxes(b.inside))
+        else:
+            out.append(b)
+    return out
+
+
+def diagram_symbols(d):
+    """Symbols occurring in the parameters of the boxes of `d` (boxes inside bubbles included: a
+    bubble has no parameter of its own, its inside is part of the diagram)."""
+    out = set()
+    for b in leaf_boxes(d):
         out |= data_symbols(getattr(b, "data", None))
     return out
+
+
+def outside_symbols(d):
+    """Symbols of the boxes of `d` that are NOT inside a bubble."""
+    out = set()
+    for b in d.boxes:
+        if not hasattr(b, "inside"):
+            out |= data_symbols(getattr(b, "data", None))
+    return out
+
+
+def bubble_depth(d):
+    return max([1 + bubble_depth(b.inside) for b in d.boxes if hasattr(b, "inside")] or [0])
 
 
 def flat_data(data):
@@ -489,12 +515,17 @@ def exact_zero(a, b):
 # --------------------------------------------------------------------------- box attributes
 
 def box_attrs(b):
-    """The non-numeric attributes the property asks to be preserved."""
-    return dict(kind=type(b).__name__, module=type(b).__module__.split(".")[-1],
-                sname=str(getattr(b, "_name", None)),
-                dom=str(b.dom), cod=str(b.cod),
-                dagger=bool(b.is_dagger),
-                mixed=(bool(b.is_mixed) if hasattr(b, "is_mixed") else None))
+    """The non-numeric attributes the property asks to be preserved.  A bubble additionally keeps
+    its function (the object), its drawing name and the shape of the diagram inside."""
+    out = dict(kind=type(b).__name__, module=type(b).__module__.split(".")[-1],
+               sname=str(getattr(b, "_name", None)),
+               dom=str(b.dom), cod=str(b.cod),
+               dagger=bool(b.is_dagger),
+               mixed=(bool(b.is_mixed) if hasattr(b, "is_mixed") else None))
+    if hasattr(b, "inside"):
+        out["bubble"] = dict(func=id(getattr(b, "func", None)), drawing_name=getattr(b, "drawing_name", None),
+                             inside=diagram_shape(b.inside))
+    return out
 
 
 def diagram_shape(d):
@@ -769,6 +800,107 @@ class TensorGen:
                     if int(np.prod(rest + l["cod"])) <= self.maxdim:
                         out.append((j, off))
         return out
+
+
+# functions applied elementwise by a tensor bubble: polynomials, so that they commute with every
+# substitution (func(e).subs(s) == func(e.subs(s))) and map numbers to numbers
+BUBBLE_FUNCS = [("sq", lambda v: v ** 2), ("inc", lambda v: v + 1), ("dbl", lambda v: 2 * v),
+                ("quad", lambda v: v * v - v), ("neg", lambda v: -v), ("cube1", lambda v: v ** 3 + 1)]
+
+
+class BubbleGen:
+    """Random tensor diagrams WITH BUBBLES (tensor.Bubble: a polynomial applied elementwise to the
+    evaluation of the diagram inside).  A diagram is a sequence of stages on a few wires; a stage is
+    a whiskered plain box, a swap, or a whiskered bubble around a recursively generated diagram
+    (nesting <= `nesting`).
+    `split`: how the symbols are shared between the boxes outside every bubble and the boxes inside:
+      "inside_only"  -- plain boxes outside the bubbles are numeric or use OTHER symbols
+      "shared"       -- the same pool everywhere
+      "nested_only"  -- only boxes at nesting depth >= 2 carry the distinguished symbol."""
+
+    def __init__(self, rng, syms, split="inside_only", maxdim=4, nesting=2):
+        self.rng, self.syms, self.split, self.maxdim, self.nesting = rng, list(syms), split, maxdim, nesting
+        self.g = TensorGen(rng, syms, maxdim=maxdim)
+        r = rng
+        pool = list(syms)
+        r.shuffle(pool)
+        k = r.randint(1, max(1, len(pool) - 1))
+        if split == "shared":
+            self.by_level = lambda lvl: pool
+        elif split == "inside_only":
+            outer, inner = pool[k:], pool[:k]
+            self.by_level = lambda lvl: (outer if lvl == 0 else inner)
+        else:
+            outer, inner = pool[1:], pool[:1]
+            self.by_level = lambda lvl: (outer if lvl < 2 else inner + outer[:1])
+        self.stats = dict(bubbles=0, redeclared=0)
+        self.redeclare = False
+
+    def box(self, dom, cod, level):
+        g, r = self.g, self.rng
+        syms = self.by_level(level)
+        symbolic = bool(syms) and r.random() < (0.8 if level else 0.6)
+        if symbolic:
+            g.syms = list(syms)
+            g.eg = ExprGen(g.drng, g.syms)
+        return g.box(dom, cod, symbolic=symbolic)[0]
+
+    def stage(self, scan, level, force_bubble=False):
+        """(layer diagram from Dim(*scan), new scan)."""
+        from discopy.tensor import Dim, Id, Swap
+        r = self.rng
+        n = len(scan)
+        kinds = ["box"] * 4 + (["swap"] if n >= 2 else [])
+        if level < self.nesting:
+            kinds += ["bubble"] * 2
+        kind = "bubble" if force_bubble and level < self.nesting else r.choice(kinds)
+        if kind == "swap":
+            off = r.randrange(n - 1)
+            return (Id(Dim(*scan[:off])) @ Swap(Dim(scan[off]), Dim(scan[off + 1])) @ Id(Dim(*scan[off + 2:])),
+                    scan[:off] + [scan[off + 1], scan[off]] + scan[off + 2:])
+        off = r.randint(0, n)
+        k = r.randint(0, min(2, n - off))
+        left, right, bdom = scan[:off], scan[off + k:], scan[off:off + k]
+        rest = int(np.prod(left + right)) if left + right else 1
+        if kind == "box":
+            cod = []
+            for _ in range(r.choice([0, 1, 1, 2])):
+                c = r.choice([2, 2, 3])
+                if rest * int(np.prod(cod + [c])) <= self.maxdim:
+                    cod.append(c)
+            b = self.box(bdom, cod, level)
+        else:
+            sub = BubbleGen.__new__(BubbleGen)
+            sub.__dict__.update(self.__dict__)
+            sub.maxdim = max(2, self.maxdim // rest)
+            inside, cod = sub.diagram(r.randint(1, 2), level + 1, dom=bdom,
+                                      force_bubble=(self.split == "nested_only" and level == 0))
+            name, func = r.choice(BUBBLE_FUNCS)
+            params = dict(func=func, drawing_name=name)
+            if self.redeclare and len(cod) == 2 and not right and r.random() < 0.5:
+                # re-declared codomain: the two wires merged into one.  Off by default: the
+                # evaluation of a bubble keeps the type of its inside (tensor.py:336), so such a
+                # bubble only composes with what follows when nothing is contracted across it
+                cod = [cod[0] * cod[1]]
+                params["cod"] = Dim(*cod)
+                self.stats["redeclared"] += 1
+            b = inside.bubble(**params)
+            self.stats["bubbles"] += 1
+        return Id(Dim(*left)) @ b @ Id(Dim(*right)), left + cod + right
+
+    def diagram(self, depth, level=0, dom=None, force_bubble=False):
+        """(diagram, cod as a list).  At level 0 at least one stage is a bubble and depth >= 2."""
+        from discopy.tensor import Dim, Id
+        r = self.rng
+        scan = list(dom) if dom is not None else [r.choice([2, 2, 3]) for _ in range(r.randint(0, 1))]
+        d = Id(Dim(*scan))
+        where = r.randrange(depth) if (level == 0 or force_bubble) else -1
+        for i in range(depth):
+            layer, scan = self.stage(scan, level, force_bubble=(i == where))
+            d = d >> layer
+        if level and len(d.boxes) == 1 and r.random() < 0.5:
+            d = d.boxes[0] if not d.offsets[0] and d.dom == d.boxes[0].dom and d.cod == d.boxes[0].cod else d
+        return d, scan
 
 
 ROT1 = ["Rx", "Ry", "Rz"]
